@@ -519,7 +519,11 @@ fn gen_script(rng: &mut Rng, tier: Tier) -> Script {
     );
     for _ in 0..ops {
         let j = rng.range(1, njobs);
-        let line = match rng.below(12) {
+        let line = match rng.below(14) {
+            // a job killed while it is suspended, then brought to the
+            // foreground; a job killed while the shell waits for it in `fg`
+            12 => format!("kill -s KILL %{j} 2>/dev/null; fg %{j} >/dev/null 2>&1; jobcheck 7{j} fg:$?:{j}"),
+            13 => format!("kill -s STOP %{j} 2>/dev/null; kill -s TERM %{j} 2>/dev/null; fg %{j} >/dev/null 2>&1; jobcheck 7{j} fg:$?:{j}"),
             0 | 1 => format!("bg %{j} >/dev/null 2>&1"),
             2 => "bg >/dev/null 2>&1".to_string(),
             3 => format!("kill -s STOP %{j} 2>/dev/null"),
@@ -528,7 +532,7 @@ fn gen_script(rng: &mut Rng, tier: Tier) -> Script {
             6 => "jobs >/dev/null".to_string(),
             7 => "jobs -l >/dev/null; jobs -n >/dev/null".to_string(),
             8 => format!("nap {}", rng.range(1, 6)),
-            9 => format!("fg %{j} >/dev/null 2>&1"),
+            9 => format!("fg %{j} >/dev/null 2>&1; jobcheck 7{j} fg:$?:{j}"),
             10 => format!("for i in 1 2; do nap 1; jobcheck 9{j}; done"),
             _ => format!("f() {{ nap 1; jobcheck 8{j}; }}; f"),
         };
